@@ -101,6 +101,15 @@ type C struct {
 	sets     map[string]map[string]struct{}
 	curCase  string
 	caseLog  *os.File
+	muted    bool
+}
+
+// Muted returns a context with the same seed, tier and scratch space whose verdicts and coverage go nowhere.
+// It lets one check drive another check's workload generator while only its own oracle reports.
+func (c *C) Muted() *C {
+	return &C{ID: c.ID, Tier: c.Tier, Seed: c.Seed, OutDir: c.OutDir, Shard: c.Shard, muted: true,
+		res:      result{Counters: map[string]int64{}, Notes: map[string]interface{}{}},
+		distinct: map[string]struct{}{}, sets: map[string]map[string]struct{}{}, curCase: c.curCase}
 }
 
 func (c *C) Thorough() bool { return c.Tier == "thorough" }
@@ -211,6 +220,9 @@ func (c *C) resultPath() string {
 }
 
 func (c *C) flushLocked() {
+	if c.muted {
+		return
+	}
 	c.res.Distinct = c.res.Distinct[:0]
 	for k := range c.distinct {
 		c.res.Distinct = append(c.res.Distinct, k)
